@@ -7,12 +7,23 @@
            value served at ts (`read_stable`), a commit writes exactly the prewritten value at the given commit ts,
            an optimistic prewrite is refused when a newer commit exists (`prewrite_conflict_detected`);
            the SI oracle's verdict is sound for the recorded reads (`siReads_sound`).
+           `snapshot_stable_over_all_runs`: for EVERY sequence of store commands (any interleaving of any number of
+           clients' prewrites, commits, rollbacks, status checks, resolves, GC …) in which later commits land above
+           `ts` (what rule 7 / max_ts give), GC safe points stay ≤ `ts` and the range is not destroyed, the value a
+           reader at `ts` is served for a key never changes — repeatable snapshot reads at the store, unbounded.
+           `served_read_is_snapshot` — the store half of SI with the lock protocol inside: if the store SERVED a read of
+           a key at `ts` (so no data lock at or below `ts` was on it), then after every later command sequence in which
+           transactions that lock the key after the read commit above `ts` (the oracle issues their commit ts after the
+           reader's ts) the version visible at `ts` is the served one.  The lock present at read time needs no
+           assumption: its commit can only land above `ts`, or writes no data.
   partial  `rules_imply_SI` (every execution obeying the C04 rules yields an SI history) is NOT assembled as one
            theorem; the judge checks SI on every explored execution instead (siReads / wwCheck / insertCheck / begin-after-ack).
 -/
 import ClientGoVerif.Proofs.MvccStable
 import ClientGoVerif.Proofs.Perc
 import ClientGoVerif.Proofs.MvccFull
+import ClientGoVerif.Proofs.MvccTemporal
+import ClientGoVerif.Proofs.MvccSI
 namespace CGV.Props.C01
 open CGV CGV.Mvcc CGV.Perc
 
@@ -68,6 +79,51 @@ theorem async_commit_ts_above_served_reads (f f' : MvccFull.FStore) (r : Prewrit
 
 theorem served_read_raises_max_ts (f : MvccFull.FStore) (ts : Nat) (h : ts ≠ maxU64) : ts ≤ (f.bump ts).maxTS :=
   MvccFull.bump_covers f ts h
+
+/-- repeatable snapshot reads, for every command sequence: from any state satisfying the store invariant (every
+    reachable state does), after ANY list of commands that respect the callers' contract (`OkAll`) and, on key `k`,
+    only commit above `ts`, collect garbage at safe points ≤ `ts`, do not destroy `k`'s range and write rollback
+    markers at versions no other record occupies (`keepsReads`; timestamps are pairwise distinct), the version visible
+    at `ts` on `k` is the one that was visible before -/
+theorem snapshot_stable_over_all_runs (ts : Nat) (k : Bytes) (s : Store) (cs : List Cmd) (hs : SInv s)
+    (hok : OkAll s cs) (hg : GuardAll (fun e lab => lab.keepsReads ts e) k s cs) :
+    firstVisible (getEntry (runAll s cs).kv k).writes ts = firstVisible (getEntry s.kv k).writes ts :=
+  runAll_read_stable ts k s cs hs hok hg
+
+/-- snapshot isolation of a served read, for every run (see the header) -/
+theorem served_read_is_snapshot (ts : Nat) (k : Bytes) (s : Store) (cs : List Cmd) (v : Option Write)
+    (hs : SInv s) (hok : OkAll s cs) (hts : ts ≠ maxU64)
+    (hserved : getValue (getEntry s.kv k) k ts true [] = .ok v) (hg : SIGuardAll ts k [] s cs) :
+    firstVisible (getEntry (runAll s cs).kv k).writes ts = v :=
+  Mvcc.served_read_is_snapshot ts k s cs v hs hok hts hserved hg
+
+/-- non-vacuity of `served_read_is_snapshot`: the reader at 25 is served while an OLDER transaction (start ts 15 < 25)
+    has not locked the key yet; it prewrites afterwards and commits at 40 > 25 — the guard holds -/
+example : SIGuardAll 25 [0x61] [] { kv := [([0x61], { writes := [⟨.put, 10, 20, [1]⟩] })] }
+    [Cmd.prewrite { mutations := [⟨.put, [0x61], [2], .none⟩], primary := [0x61], startTS := 15, ttl := 3000 },
+     Cmd.commit [[0x61]] 15 40] := by
+  refine ⟨?_, ?_, trivial⟩
+  · rintro lab (rfl | rfl) <;> simp [SIGuard]
+  · rintro lab (rfl | ⟨_, rfl⟩)
+    · simp [SIGuard]
+    · refine ⟨fun _ => by decide, ?_⟩
+      decide
+
+/-- non-vacuity: a later transaction prewriting and committing above the reader's ts, and a third being rolled back,
+    satisfy the guard on the key -/
+example : GuardAll (fun e lab => lab.keepsReads 25 e) [0x61]
+    { kv := [([0x61], { writes := [⟨.put, 10, 20, [1]⟩] })] }
+    [Cmd.prewrite { mutations := [⟨.put, [0x61], [2], .none⟩], primary := [0x61], startTS := 30, ttl := 3000 },
+     Cmd.commit [[0x61]] 30 40,
+     Cmd.rollback [[0x61]] 50] := by
+  simp only [GuardAll, Cmd.labels]
+  refine ⟨?_, ?_, ?_, trivial⟩
+  · rintro lab (rfl | rfl) <;> simp [KLabel.keepsReads]
+  · rintro lab (rfl | ⟨_, rfl⟩) <;> simp [KLabel.keepsReads]
+  · rintro lab (rfl | ⟨_, rfl | rfl⟩)
+    · simp [KLabel.keepsReads]
+    · simp only [KLabel.keepsReads]; decide
+    · simp only [KLabel.keepsReads]; decide
 
 example : firstVisible [⟨.put, 10, 20, [1]⟩, ⟨.rollback, 5, 5, []⟩] 25 = some ⟨.put, 10, 20, [1]⟩ := by decide
 
